@@ -23,7 +23,7 @@ LEVEL_NOTE = (
     "TN93/GTR points; protein frequency tables not normalised)."
 )
 TECHNIQUE = "Lean 4 + Mathlib proof over R of regenerated numeric code (T2) + differential correspondence at Float + numeric law checks"
-LEAN_MODULES = ["Gv.Props.C18"]
+LEAN_MODULES = ["Gv.Props.C18", "Gv.Props.C07Inv"]
 REQUIRED_THEOREMS = ["Gv.Props.C18." + n for n in [
     # generic
     "eigen_assembly", "eigen_assembly_limit", "setLength_entry_within_floor",
@@ -40,12 +40,19 @@ REQUIRED_THEOREMS = ["Gv.Props.C18." + n for n in [
     "f81_is_gtr", "tn93_is_gtr", "f81_laws_of_eigen_system", "tn93_laws_of_eigen_system", "gtr_laws_of_eigen_system",
     # protein
     "prot_Q_rows_sum_zero", "prot_Q_reversible", "prot_mean_rate_one", "prot_Q_eq_textbook",
-    "prot_laws_of_eigen_system", "protein_tables_ok", "prot_tables_rate_matrix"]]
+    "prot_laws_of_eigen_system", "protein_tables_ok", "prot_tables_rate_matrix"]] + [
+    # link with C07 (Props/C07Inv.lean): a symbolic eigen-system for the regenerated F81 / TN93 rate matrices
+    "Gv.Props.C07Inv." + n for n in [
+        "tn93_eigen_RDL", "tn93P_eq_exp", "tn93_closed_form_laws", "f81Q_eq_f84Q_zero", "f81_P_closed_form"]]
 TIMEOUT = 10.0
 PARTIAL = [
     "f81_laws_of_eigen_system / tn93_laws_of_eigen_system / gtr_laws_of_eigen_system / prot_laws_of_eigen_system: every law of P(t) "
     "(= exp(tQ), stochastic, P(0)=I, semigroup, detailed balance) is proved for ANY eigen-system with L*R=I and R*D*L=Q; that gonum's "
     "Eigen+Inverse return such a system is not proved (external call) - residuals are measured on every checked case",
+    "F81 / TN93: Props/C07Inv.lean gives a SYMBOLIC eigen-system (the eigenvectors of F84Model.Eigens with the three TN93 "
+    "eigenvalues) that diagonalises the rate matrix regenerated from TN93Model.InitModel / F81Model.InitModel, hence closed "
+    "forms of exp(tQ) with every law (tn93_closed_form_laws, f81_P_closed_form) - unconditionally; what stays unproved is "
+    "that gonum's numeric decomposition, which the Go code actually uses, reproduces it (residuals measured per case)",
     "limit = stationary frequencies for F81/TN93/GTR/protein: only via eigen_assembly_limit, conditional on the numeric eigenvalues "
     "(one zero, others negative); checked numerically per case through a rigorous reversible-chain bound",
     "protein: theorems are about the hand-written Lean model of the InitModel loops (lean/Gv/Model/ProtModel.lean), validated against the "
